@@ -146,7 +146,7 @@ def _gen_op(rng, cfg):
     if kind == "use":
         # 4th element: which optional arguments / which function the call gets (0 = the defaults) - the same method is
         # called on the same object with different options in either order
-        return ["use", rng.randrange(1000), rng.choice(["integrate", "angint", "sph", "spline", "interp", "basis", "savg", "sph", "interp"]),
+        return ["use", rng.randrange(1000), rng.choice(["integrate", "angint", "sph", "spline", "interp", "basis", "savg", "sph", "interp", "peek", "peek"]),
                 rng.choice([0, 0, rng.randrange(16)])]
     if kind == "edit":
         return ["edit", rng.randrange(1000), rng.choice(["points", "weights", "points", "weights", "indices", "degrees", "aux"]), rng.choice(EDIT_HOWS)]
@@ -823,6 +823,11 @@ def _op_use(ctx, owner, op):
             if v == 2:
                 return np.asarray(gg.convert_cartesian_to_spherical(probe))
             return np.asarray(gg.convert_cartesian_to_spherical(probe, other))
+        if what == "peek":
+            # a look at every public property of the object (values discarded): looking must not change later answers
+            for nm in sorted(n for n in dir(type(gg)) if not n.startswith("_") and isinstance(getattr(type(gg), n, None), property)):
+                getattr(gg, nm)
+            return np.zeros(1)
         if what == "savg":
             return np.asarray(gg.spherical_average(f)(np.array([0.2, 0.7, 1.3])))
         if what == "spline":
@@ -917,10 +922,19 @@ def _op_edit(ctx, owner, op):
     g = o.obj
     if o.kind == "coulomb_result":
         arr = g[0] if attr in ("points", "indices") else g[1]
-    elif attr == "aux":
-        arr = getattr(g, "atweights", None) if o.kind == "mol" else getattr(g, "basis", None)
     else:
-        arr = getattr(g, attr, None)
+        # reading a public attribute is a library call like any other (a property may compute, load, fail)
+        name = attr if attr != "aux" else ("atweights" if o.kind == "mol" else "basis")
+        had_fault = ctx.store.active()
+        mark = ctx.mark()
+        oc = _outcome(lambda: getattr(g, name, None))
+        if oc[0] == "raise":
+            if ctx.fired_since(mark) or had_fault:
+                ctx.log.add(ctx.step, "edit", "read-raised-under-fault", type(oc[1]).__name__)
+                return
+            ctx.violate("unexpected-raise", "edit", f"{o.kind}.{name}:{type(oc[1]).__name__}", f"reading {o.kind}.{name} raised {oc[1]!r} with no fault active")
+            return
+        arr = oc[1]
     try:
         done = _apply_edit(arr, how)
     except (ValueError, TypeError) as exc:
